@@ -206,6 +206,10 @@ func (s *Sess) New(chunks [][]byte, fin string) NewRes {
 			cut := 1 + (len(s.Keys[0].Config)+len(chunks))%(n-1)
 			opts = []ech.Option{ech.WithKeys(s.Keys[:cut]), ech.WithKeys(s.Keys[cut:])}
 		}
+		if n := len(s.Keys); n >= 1 && len(chunks) > 0 && (len(s.Keys[0].Config)+len(s.Keys[0].PrivateKey)+len(chunks[0]))%3 == 0 {
+			// ... and an option that adds nothing (a deployment whose second key file is empty)
+			opts = append(opts, ech.WithKeys(nil))
+		}
 		c, err := ech.NewConn(context.Background(), s.Fake, opts...)
 		s.Conn = c
 		res.Err = ErrClass(err)
@@ -224,6 +228,14 @@ func (s *Sess) New(chunks [][]byte, fin string) NewRes {
 	}
 	s.m(fmt.Sprintf("new %s %s", chunksStr(chunks), fin), want, "NewConn")
 	return res
+}
+
+// Names compares what the Conn reports about the client's hello at this point of its life.
+func (s *Sess) Names() {
+	if s.Conn == nil {
+		return
+	}
+	s.m("names", fmt.Sprintf("sni=%s alpn=%s", core.Hex([]byte(s.Conn.ServerName())), core.StrHexList(s.Conn.ALPNProtos())), "Conn.ServerName / Conn.ALPNProtos")
 }
 
 // Feed appends client bytes to the transport.
